@@ -47,11 +47,16 @@ func vFuture() time.Time { return time.Date(2101, 1, 1, 0, 0, 0, 0, time.UTC) }
 // VH_C18_jar: a history of k operations with a Get for every (host, path) after each operation
 // (case = k) or only after the last one (case = 10+k: expired cookies pile up before the first lookup);
 // +20: all operations share one URI object (its host/path buffers are overwritten by every operation).
+// 40+k: every operation is a response whose Set-Cookie either has no Path attribute or names "/"
+// (the same cookie: one without a path counts as stored for "/"), answering a request to an
+// independently chosen path ("/" or "/a") - a pathless Set-Cookie served from a sub-path must still
+// update or expire the cookie stored for "/".
 func VH_C18_jar(caseID int) {
 	k := caseID % 10
 	onlyAtEnd := (caseID/10)%2 == 1
+	pathless := caseID >= 40
 	vSharedURI = nil
-	if caseID >= 20 {
+	if (caseID/10)%4 >= 2 {
 		vSharedURI = fasthttp.AcquireURI()
 	}
 	jar := &CookieJar{}
@@ -88,7 +93,11 @@ func VH_C18_jar(caseID int) {
 				}
 				vObserve("get", desc)
 				for _, c := range got {
-					id := string(c.Key()) + "|" + string(c.Path())
+					cp := string(c.Path())
+					if cp == "" {
+						cp = "/"
+					}
+					id := string(c.Key()) + "|" + cp
 					seen[id]++
 					wv, ok := want[id]
 					vAssert(ok, "no-foreign-or-expired-or-wrong-path-cookie")
@@ -106,11 +115,36 @@ func VH_C18_jar(caseID int) {
 		ss := strconv.Itoa(step)
 		h := vHosts[vChoice("host"+ss, 2)]
 		key := vKeys[vChoice("key"+ss, 2)]
-		p := vPaths[vChoice("path"+ss, len(vPaths))]
+		p := "/"
+		if !pathless {
+			p = vPaths[vChoice("path"+ss, len(vPaths))]
+		}
 		val := "v" + vToken1("val"+ss)
 		exp := vChoice("exp"+ss, 3) // 0 unlimited, 1 past, 2 future
 		seq++
-		if vChoice("op"+ss, 2) == 0 {
+		if pathless {
+			noPath := vChoice("nopath"+ss, 2) == 1
+			rq := []string{"/", "/a"}[vChoice("rq"+ss, 2)]
+			resp := fasthttp.AcquireResponse()
+			c := fasthttp.AcquireCookie()
+			c.SetKey(key)
+			c.SetValue(val)
+			if !noPath {
+				c.SetPath("/")
+			}
+			switch exp {
+			case 1:
+				c.SetExpire(vPast())
+			case 2:
+				c.SetExpire(vFuture())
+			}
+			resp.Header.SetCookie(c)
+			ru := vURI(h, rq)
+			jar.parseCookiesFromResp(ru.Host(), ru.Path(), resp)
+			fasthttp.ReleaseCookie(c)
+			fasthttp.ReleaseResponse(resp)
+			p = "/"
+		} else if vChoice("op"+ss, 2) == 0 {
 			// jar.Set
 			c := fasthttp.AcquireCookie()
 			c.SetKey(key)
